@@ -75,8 +75,8 @@ def binding_selftest(run, trace):
         for i, l in enumerate(M):
             if kind == "rows" and l["op"] == "query" and l["rows"]:
                 l["rows"][0][1] += 1; hit = i + 1; break
-            if kind == "ev" and l["op"] in ("update", "create") and l["res"] == "ok" and l["t"] == 0 and l["evs"] and l["evs"][0]:
-                l["evs"][-1] = []; hit = i + 1; break
+            if kind == "ev" and l["op"] in ("update", "create") and l["res"] == "ok" and l["t"] == 0 and l["evs"] and any(l["evs"].values()):
+                k0 = sorted(l["evs"])[-1]; l["evs"][k0] = []; hit = i + 1; break
         if hit is None:
             continue
         p = os.path.join(run.tmp, "corrupt-%s.ndjson" % kind)
@@ -131,7 +131,7 @@ def check(run, replay, prop):
     for i, (f, variant) in enumerate(scheds):
         trace = os.path.join(run.tmp, "trace-%d.ndjson" % i)
         stats = os.path.join(run.tmp, "stats-%d.json" % i)
-        args = ["-sched", f, "-out", trace, "-stats", stats, "-variant", variant, "-subs", "3" if prop == "C20" else "2"]
+        args = ["-sched", f, "-out", trace, "-stats", stats, "-variant", variant]
         if replay:
             args += ["-replayfile"]
         if not thorough:
